@@ -669,6 +669,13 @@ func isReturn(in ssa.Instruction) bool { _, ok := in.(*ssa.Return); return ok }
 // DerivesFrom reports whether v depends (through operands, up to depth) on a
 // value satisfying pred. Loads from local cells follow the stores to the cell.
 func (c *Ctx) DerivesFrom(v ssa.Value, pred func(ssa.Value) bool, depth int) bool {
+	return c.DerivesFromAvoiding(v, pred, nil, depth)
+}
+
+// DerivesFromAvoiding is DerivesFrom that does not look through values
+// satisfying stop (a masking call, a narrowing conversion): "the value is the
+// source itself, not something cut out of it".
+func (c *Ctx) DerivesFromAvoiding(v ssa.Value, pred, stop func(ssa.Value) bool, depth int) bool {
 	seen := map[ssa.Value]bool{}
 	var rec func(v ssa.Value, d int) bool
 	rec = func(v ssa.Value, d int) bool {
@@ -676,6 +683,9 @@ func (c *Ctx) DerivesFrom(v ssa.Value, pred func(ssa.Value) bool, depth int) boo
 			return false
 		}
 		seen[v] = true
+		if stop != nil && stop(v) {
+			return false
+		}
 		if pred(v) {
 			return true
 		}
@@ -925,7 +935,28 @@ func (c *Ctx) sendsPacket(in ssa.Instruction, typeName string) bool {
 func (c *Ctx) joinParts(v ssa.Value) ([]string, bool) {
 	call, ok := v.(*ssa.Call)
 	if !ok {
-		return nil, false
+		// a parameter of a helper no rule names, a single-assignment local:
+		// every value it can stand for must be the same Join
+		rs := eng.ResolveAll(v)
+		if len(rs) == 0 || (len(rs) == 1 && rs[0] == v) {
+			return nil, false
+		}
+		var first []string
+		for i, r := range rs {
+			if _, isCall := eng.Strip(r).(*ssa.Call); !isCall {
+				return nil, false
+			}
+			ps, isJoin := c.joinParts(eng.Strip(r))
+			if !isJoin {
+				return nil, false
+			}
+			if i == 0 {
+				first = ps
+			} else if strings.Join(ps, "\x00") != strings.Join(first, "\x00") {
+				return nil, false
+			}
+		}
+		return first, true
 	}
 	n := c.P.CalleeName(call)
 	if n != "path/filepath.Join" && n != "path.Join" {
@@ -1067,7 +1098,13 @@ func (c *Ctx) staleElementStores(fn *ssa.Function) (checked int, bad []ssa.Instr
 			case *ssa.IndexAddr:
 				ia = x
 			default:
-				i = 4
+				// the element address handed out by a helper no rule names
+				// (`cur := v.enclosingDir(dir)`): what the helper returns
+				if r := eng.Resolve(a); r != a {
+					a = r
+				} else {
+					i = 4
+				}
 			}
 		}
 		if ia == nil {
